@@ -1,0 +1,26 @@
+//go:build verif
+
+package aws
+
+import (
+	"github.com/atlassian/escalator/pkg/cloudprovider"
+	"github.com/aws/aws-sdk-go/service/autoscaling/autoscalingiface"
+	"github.com/aws/aws-sdk-go/service/ec2/ec2iface"
+)
+
+// This file is only compiled with the "verif" build tag. It lets the external verification harness
+// run the real provider over injected AWS service clients; no existing code path is changed.
+
+// VerifNewCloudProvider builds the AWS provider over injected service clients.
+func VerifNewCloudProvider(service autoscalingiface.AutoScalingAPI, ec2Service ec2iface.EC2API, configs ...cloudprovider.NodeGroupConfig) (*CloudProvider, error) {
+	c := &CloudProvider{service: service, ec2Service: ec2Service, nodeGroups: make(map[string]*NodeGroup, len(configs))}
+	return c, c.RegisterNodeGroups(configs...)
+}
+
+// VerifTerminateTries reads the consecutive failed-fleet-cleanup counter of a node group.
+func (c *CloudProvider) VerifTerminateTries(id string) int {
+	if ng, ok := c.nodeGroups[id]; ok {
+		return ng.terminateInstancesTries
+	}
+	return -1
+}
